@@ -849,15 +849,58 @@ fn canon_field(d: &[Den]) -> String {
     show_den(d)
 }
 
+/// a maximal digit run whose value exceeds i32::MAX
+fn big_run(s: &str) -> bool {
+    let b = s.as_bytes();
+    let mut i = 0;
+    while i < b.len() {
+        if b[i].is_ascii_digit() {
+            let st = i;
+            while i < b.len() && b[i].is_ascii_digit() {
+                i += 1;
+            }
+            let d = s[st..i].trim_start_matches('0');
+            if d.len() > 10 || (d.len() == 10 && d > "2147483647") {
+                return true;
+            }
+        } else {
+            i += 1;
+        }
+    }
+    false
+}
+
+fn has_big_number(root: &Relations) -> bool {
+    root.entries().any(|e| {
+        e.relations().any(|r| match guard(|| r.version()) {
+            Some(Some((_, v))) => big_run(&v.upstream_version) || big_run(v.debian_revision.as_deref().unwrap_or("0")),
+            _ => false,
+        })
+    })
+}
+
 fn run_wrap(text: &str, allow: bool) -> Resp {
     let (root, errs) = Relations::parse_relaxed(text, allow);
     if !errs.is_empty() {
         return Resp::ok("NOT-WELL-FORMED".to_string());
     }
+    // `debversion::Version::cmp` may panic on numeric components above i32::MAX (finding F-C12-1);
+    // which comparisons the sort makes is not modelled: such inputs are answered `BIGNUM`
+    if has_big_number(&root) {
+        // not hidden: the call is made; a panic here is reported under the open finding F-C13-2
+        // (same root cause as F-C12-1), whose trigger the model driver attaches to `BIGNUM`
+        let panicked = guard(move || root.wrap_and_sort().to_string()).is_none();
+        return Resp::with(
+            "BIGNUM".to_string(),
+            if panicked { Some("wrap_and_sort panics comparing a numeric version component above i32::MAX".into()) } else { None },
+        );
+    }
     let input = read_field(&root);
     let w1 = match guard(move || root.wrap_and_sort()) {
         Some(w) => w,
-        None => return Resp::with("PANIC".into(), Some("wrap_and_sort panics".into())),
+        // a panic is a failure only inside the domain: when the accessors read the input (a relation
+        // like `a (> 1)` parses, but `version()` unwraps on its operator — outside the five operators)
+        None => return Resp::with("PANIC".into(), if input.is_some() { Some("wrap_and_sort panics".into()) } else { None }),
     };
     let t1 = w1.to_string();
     let d1 = w1.verif_dump();
